@@ -25,6 +25,7 @@ import (
 	"io"
 	"io/fs"
 	"net/http"
+	"net/url"
 	"os"
 	"path/filepath"
 	"sort"
@@ -1793,6 +1794,13 @@ func (p *Posix) CompleteMultipartUpload(ctx context.Context, input *s3.CompleteM
 		return nil, fmt.Errorf("set etag attr: %w", err)
 	}
 
+	if !hasRetention {
+		err = p.applyDefaultRetention(f.File(), bucket, object)
+		if err != nil {
+			return nil, err
+		}
+	}
+
 	verifhook.At("posix.cmu.beforelink")
 	err = f.link()
 	verifhook.At("posix.cmu.linked")
@@ -1801,13 +1809,6 @@ func (p *Posix) CompleteMultipartUpload(ctx context.Context, input *s3.CompleteM
 	}
 	if err != nil {
 		return nil, fmt.Errorf("link object in namespace: %w", err)
-	}
-
-	if !hasRetention {
-		err = p.applyDefaultRetention(bucket, object)
-		if err != nil {
-			return nil, err
-		}
 	}
 
 	// cleanup tmp dirs
@@ -3097,6 +3098,53 @@ func (p *Posix) PutObject(ctx context.Context, po s3response.PutObjectInput) (s3
 		}
 	}
 
+	// tags, legal hold and retention belong to the object as its other
+	// attributes do: they are written to the file before it is published,
+	// not by name afterwards (when the name may already be another object)
+	if tags != nil {
+		b, err := json.Marshal(tags)
+		if err != nil {
+			return s3response.PutObjectOutput{}, fmt.Errorf("marshal tags: %w", err)
+		}
+		err = p.meta.StoreAttribute(f.File(), *po.Bucket, *po.Key, tagHdr, b)
+		if err != nil {
+			return s3response.PutObjectOutput{}, fmt.Errorf("set tags: %w", err)
+		}
+	}
+	if po.ObjectLockLegalHoldStatus == types.ObjectLockLegalHoldStatusOn {
+		err := p.isBucketObjectLockEnabled(*po.Bucket)
+		if err != nil {
+			return s3response.PutObjectOutput{}, err
+		}
+		err = p.meta.StoreAttribute(f.File(), *po.Bucket, *po.Key, objectLegalHoldKey, []byte{1})
+		if err != nil {
+			return s3response.PutObjectOutput{}, fmt.Errorf("set object legal hold: %w", err)
+		}
+	}
+	if po.ObjectLockMode != "" {
+		err := p.isBucketObjectLockEnabled(*po.Bucket)
+		if err != nil {
+			return s3response.PutObjectOutput{}, err
+		}
+		retention := types.ObjectLockRetention{
+			Mode:            types.ObjectLockRetentionMode(po.ObjectLockMode),
+			RetainUntilDate: po.ObjectLockRetainUntilDate,
+		}
+		retParsed, err := json.Marshal(retention)
+		if err != nil {
+			return s3response.PutObjectOutput{}, fmt.Errorf("parse object lock retention: %w", err)
+		}
+		err = p.meta.StoreAttribute(f.File(), *po.Bucket, *po.Key, objectRetentionKey, retParsed)
+		if err != nil {
+			return s3response.PutObjectOutput{}, fmt.Errorf("set object retention: %w", err)
+		}
+	} else {
+		err = p.applyDefaultRetention(f.File(), *po.Bucket, *po.Key)
+		if err != nil {
+			return s3response.PutObjectOutput{}, err
+		}
+	}
+
 	verifhook.At("posix.putobject.beforelink")
 	err = f.link()
 	verifhook.At("posix.putobject.linked")
@@ -3113,48 +3161,6 @@ func (p *Posix) PutObject(ctx context.Context, po s3response.PutObjectInput) (s3
 		return s3response.PutObjectOutput{}, s3err.GetAPIError(s3err.ErrExistingObjectIsDirectory)
 	}
 
-	// Set object tagging
-	if tags != nil {
-		err := p.PutObjectTagging(ctx, *po.Bucket, *po.Key, tags)
-		if errors.Is(err, fs.ErrNotExist) {
-			return s3response.PutObjectOutput{
-				ETag:      etag,
-				VersionID: versionID,
-			}, nil
-		}
-		if err != nil {
-			return s3response.PutObjectOutput{}, err
-		}
-	}
-
-	// Set object legal hold
-	if po.ObjectLockLegalHoldStatus == types.ObjectLockLegalHoldStatusOn {
-		err := p.PutObjectLegalHold(ctx, *po.Bucket, *po.Key, "", true)
-		if err != nil {
-			return s3response.PutObjectOutput{}, err
-		}
-	}
-
-	// Set object retention
-	if po.ObjectLockMode != "" {
-		retention := types.ObjectLockRetention{
-			Mode:            types.ObjectLockRetentionMode(po.ObjectLockMode),
-			RetainUntilDate: po.ObjectLockRetainUntilDate,
-		}
-		retParsed, err := json.Marshal(retention)
-		if err != nil {
-			return s3response.PutObjectOutput{}, fmt.Errorf("parse object lock retention: %w", err)
-		}
-		err = p.PutObjectRetention(ctx, *po.Bucket, *po.Key, "", true, retParsed)
-		if err != nil {
-			return s3response.PutObjectOutput{}, err
-		}
-	} else {
-		err = p.applyDefaultRetention(*po.Bucket, *po.Key)
-		if err != nil {
-			return s3response.PutObjectOutput{}, err
-		}
-	}
 	verifhook.At("posix.putobject.done")
 
 	return s3response.PutObjectOutput{
@@ -4391,29 +4397,33 @@ func (p *Posix) CopyObject(ctx context.Context, input s3response.CopyObjectInput
 			putObjectInput.Metadata = mdmap
 		}
 
-		// pass the input tagging to PutObject, if tagging directive is "REPLACE"
+		// pass the input tagging to PutObject, if tagging directive is "REPLACE",
+		// the tags of the source object if it is "COPY"
 		if input.TaggingDirective == types.TaggingDirectiveReplace {
 			putObjectInput.Tagging = input.Tagging
 		}
-
-		res, err := p.PutObject(ctx, putObjectInput)
-		if err != nil {
-			return nil, err
-		}
-
-		// copy the source object tagging after the destination object
-		// creation, if tagging directive is "COPY"
 		if input.TaggingDirective == types.TaggingDirectiveCopy {
 			tagging, err := p.meta.RetrieveAttribute(nil, srcBucket, srcObject, tagHdr)
 			if err != nil && !errors.Is(err, meta.ErrNoSuchKey) {
 				return nil, fmt.Errorf("get source object tagging: %w", err)
 			}
 			if err == nil {
-				err := p.meta.StoreAttribute(nil, dstBucket, dstObject, tagHdr, tagging)
-				if err != nil {
-					return nil, fmt.Errorf("set destination object tagging: %w", err)
+				srcTags := make(map[string]string)
+				if err := json.Unmarshal(tagging, &srcTags); err != nil {
+					return nil, fmt.Errorf("unmarshal source object tagging: %w", err)
 				}
+				vals := url.Values{}
+				for k, v := range srcTags {
+					vals.Set(k, v)
+				}
+				enc := vals.Encode()
+				putObjectInput.Tagging = &enc
 			}
+		}
+
+		res, err := p.PutObject(ctx, putObjectInput)
+		if err != nil {
+			return nil, err
 		}
 
 		etag = res.ETag
@@ -4896,7 +4906,7 @@ func (p *Posix) DeleteBucketPolicy(ctx context.Context, bucket string) error {
 // of its bucket, if there is one: the retention period starts now and is
 // stored with the object, so that it does not change when the bucket's
 // lock configuration is replaced later.
-func (p *Posix) applyDefaultRetention(bucket, object string) error {
+func (p *Posix) applyDefaultRetention(f *os.File, bucket, object string) error {
 	cfg, err := p.meta.RetrieveAttribute(nil, bucket, "", bucketLockKey)
 	if err != nil {
 		// no lock configuration
@@ -4924,7 +4934,7 @@ func (p *Posix) applyDefaultRetention(bucket, object string) error {
 	if err != nil {
 		return fmt.Errorf("parse object lock retention: %w", err)
 	}
-	err = p.meta.StoreAttribute(nil, bucket, object, objectRetentionKey, retention)
+	err = p.meta.StoreAttribute(f, bucket, object, objectRetentionKey, retention)
 	if err != nil && !errors.Is(err, fs.ErrNotExist) {
 		return fmt.Errorf("set object retention: %w", err)
 	}
